@@ -216,6 +216,28 @@ def rule_m2345(prog: Program, col: Collector) -> None:
     col.check(bool(rets) and all(r.value == info[0].term for r in rets), ref.where(), ref.short, "normalize_game returns that norm-info", construct="norminfo-return",
               necessity="the caller de-normalises with the returned info: it must be the info captured before the game was changed")
 
+    # the norm-info is computed for every game the library accepts: additive float games have a surplus of about -1e-16
+    nref = prog.func("normalize._get_norminfo")
+    nft = fterms(prog, nref)
+    raises = list(nft.of_kind("raise"))
+    nrets = list(nft.of_kind("return"))
+    col.check(not raises and len(nrets) == 1 and not [f for f in nrets[0].ctx if f[0] == "if"], nref.where(raises[0].node if raises else None), nref.short,
+              "_get_norminfo always returns (no validation that rejects games)", construct="norminfo-rejects",
+              necessity="for additive games with float values the surplus is a rounding residue of either sign: rejecting a negative one makes normalize_game raise for games "
+                        "the library itself accepts as superadditive instead of returning the zero game (ICG_Gym.reset normalises every generated game)")
+    # the divisor is the grand coalition's value as it stands in the game AFTER the singleton subtraction
+    iref = prog.func("normalize._normalize_icg")
+    ift = fterms(prog, iref)
+    igp = ("param", iref.positional_params()[0])
+    divs = [e for e in ift.of_kind("aug") if e.op == "/"]
+    subs = [e for e in ift.calls("set_value") if e.recv == igp and any(f[0] == "for" for f in e.ctx)]
+    want_div = ("call", ("attr", igp, "get_value"), (("call", ("global", P + "coalitions.grand_coalition"), (igp,), ()),), ())
+    reread = [e for e in ift.calls("get_value") if e.term == want_div and subs and e.seq > max(x.seq for x in subs)]
+    col.check(bool(divs) and all(d.value == want_div for d in divs) and bool(reread), iref.where(divs[0].node if divs else None), iref.short,
+              "the values are divided by game.get_value(grand_coalition(game)) re-read after the subtraction loop", construct="divisor-not-reread",
+              necessity="the grand coalition must normalise to exactly 1: its stored value after the subtractions carries the same rounding as every other entry, while a surplus "
+                        "computed another way (v(N) - np.sum(singletons) from the norm-info) differs by a few ulps of the scale - divided by a tiny surplus that puts values above 1")
+
     col.rule("M5", "normalize_game / denormalize_game dispatch on both members of NormalizableGame", 2)
     kinds = set()
     for f in [f for e in muts for f in e.ctx if f[0] == "if"]:
